@@ -10,6 +10,8 @@
 //!   one <fn> <n> <d> <s|c>                replay of one copy/set call on the small arena
 //!   onecmp <fn> <n> <am> <bm> <p> <pair>  replay of one compare call
 //!   mid <n,n,...>                         copy calls with lengths up to 130 on a 640-byte arena (run-level judgement)
+//!   bigov <n,n,...>                       overlapping memmove with LARGE lengths (up to 65 600) and SMALL distances
+//!                                         (1..72, 127, 128, 129, both directions, two destination alignments) on a 96 KiB arena
 //!   guard <n,n,...>                       the SOURCE of copies / the operands of compares END right in front of an
 //!                                         unreadable page or START right behind one (mmap + mprotect): a load outside
 //!                                         [src, src+n) faults - the crash is the datum (read_outside)
@@ -42,6 +44,8 @@ struct Arena<const N: usize>([u8; N]);
 static mut SMALL: Arena<256> = Arena([0; 256]);
 const MID_L: usize = 640;
 static mut MID: Arena<MID_L> = Arena([0; MID_L]);
+const OV_L: usize = 96 << 10;
+static mut OV: Arena<OV_L> = Arena([0; OV_L]);
 static mut BIG: Arena<BIG_L> = Arena([0; BIG_L]);
 
 // ---------------------------------------------------------------------------------------------
@@ -599,6 +603,25 @@ pub fn main() -> i32 {
                         if delta != 0 && delta.unsigned_abs() as usize <= n + 1 {
                             do_copy("memmove", mov, mb, MID_L, n, d, (d as i64 + delta) as usize);
                         }
+                    }
+                }
+            }
+        } else if mode == b"bigov" {
+            let ob = core::ptr::addr_of_mut!(OV).cast::<u8>();
+            fill_tags(ob, OV_L);
+            for nw in word(cmd, 1).split(|c| *c == b',') {
+                let n = num(nw) as usize;
+                if nw.is_empty() || n > 65_600 {
+                    continue;
+                }
+                for dm in [0usize, 3] {
+                    let d = 8192 + dm;
+                    let mut dist = 1usize;
+                    while dist <= 129 {
+                        // destination above the source (backward copy needed) and below it (forward copy)
+                        do_copy("memmove", mov, ob, OV_L, n, d, d - dist);
+                        do_copy("memmove", mov, ob, OV_L, n, d, d + dist);
+                        dist = if dist == 72 { 127 } else { dist + 1 };
                     }
                 }
             }
